@@ -163,7 +163,7 @@ theorem secondItem_visible (s : LState) (t : Nat) (st : St) (rest : List (Nat ×
 /-- a step that starts from a state with no visible trials yet and does not set them -/
 theorem FInv.empty {s s' : LState} (h : FInv s) (hp : finPc s.pc = false ∨ s.pc = .finTuningEnd ∨ s.pc = .finAll)
     (hv : s'.visible = s.visible) (he : s'.err ≠ some .envFin) : FInv s' :=
-  ⟨fun _ => by rw [hv]; exact h.vis0 hp, fun _ _ t ht => by rw [hv, h.vis0 hp] at ht; cases ht, fun _ => he⟩
+  ⟨fun _ => by rw [hv]; exact h.vis0 hp, (fun _ _ t ht => by rw [hv, h.vis0 hp] at ht; cases ht), fun _ => he⟩
 
 /-- an exception inside the `finally` block -/
 theorem FInv.raised (s : LState) : FInv (exitRaise s) :=
@@ -190,6 +190,114 @@ theorem Stage.after {s s' : LState} {t : Nat} (h : Stage s t) (hp : stopLoopPc s
   · rcases h1 with h1 | h1 <;> (rw [h1] at hp; cases hp)
   · exact Or.inr (Or.inr (by rw [hb]; exact h1))
 
+theorem FInv.loopSame {s s' : LState} (h : FInv s) (hE : ErrInv s) (hp : finPc s.pc = false)
+    (hv : s'.visible = s.visible) (he : s'.err = s.err) : FInv s' :=
+  h.empty (Or.inl hp) hv (by rw [he, hE hp]; exact fun hc => nomatch hc)
+
+theorem FInv.loopRaise {s : LState} (h : FInv s) (hp : finPc s.pc = false) (e : Raised) (he : e ≠ .envFin) :
+    FInv (raiseFin s e) :=
+  h.empty (Or.inl hp) rfl (by show some e ≠ some Raised.envFin; intro hc; injection hc with hc; exact he hc)
+
+theorem pcne {p q : Pc} (h : (p == q) = false) : p ≠ q := by
+  intro hc; subst hc; simp at h
+
+/-- a step of the `finally` block after the stop loop -/
+theorem FInv.after {s s' : LState} (h : FInv s) (hf : finPc s.pc = true) (hsl : stopLoopPc s.pc = false)
+    (hnd : s.pc ≠ .done)
+    (hf' : finPc s'.pc = true) (hn : s'.pc ≠ .finTuningEnd ∧ s'.pc ≠ .finAll)
+    (hv : s'.visible = s.visible) (hb : s'.bst = s.bst) (he : s'.err ≠ some .envFin) : FInv s' :=
+  h.keep hf hf' hnd hn hv he (fun _ hst _ => hst.after hsl hb)
+
+/-- `_all_trial_results` has answered -/
+theorem FInv.visibleSet {s : LState} (h : FInv s) (hp : s.pc = .finAll) (l : List Nat) :
+    FInv { s with dels := l, visible := l, pc := .finStatusNext } :=
+  ⟨(fun hc => by rcases hc with hc | hc | hc <;> cases hc), (fun _ _ t ht => Or.inl ⟨rfl, ht⟩),
+   fun _ => h.noFinErr (by rw [hp]; exact pcne rfl)⟩
+
+theorem FInv.nextStatus {s : LState} (h : FInv s) (hp : s.pc = .finStatusNext) (t : Nat) (rest : List Nat)
+    (hd : s.dels = t :: rest) : FInv { s with pc := .finStatus, t := t, dels := rest } := by
+  refine h.keep (by rw [hp]; rfl) rfl (by rw [hp]; exact pcne rfl) ⟨pcne rfl, pcne rfl⟩ rfl
+    (h.noFinErr (by rw [hp]; exact pcne rfl)) (fun u hst _ => ?_)
+  rcases hst with ⟨_, h1⟩ | ⟨h1, _⟩ | h1
+  · rw [hd] at h1
+    rcases List.mem_cons.mp h1 with h2 | h2
+    · exact Or.inr (Or.inl ⟨Or.inl rfl, h2⟩)
+    · exact Or.inl ⟨rfl, h2⟩
+  · rcases h1 with h1 | h1 <;> (rw [hp] at h1; cases h1)
+  · exact Or.inr (Or.inr h1)
+
+theorem FInv.loopDone {s : LState} (h : FInv s) (hp : s.pc = .finStatusNext) (hd : s.dels = []) :
+    FInv { s with pc := .finDelAll } := by
+  refine h.keep (by rw [hp]; rfl) rfl (by rw [hp]; exact pcne rfl) ⟨pcne rfl, pcne rfl⟩ rfl
+    (h.noFinErr (by rw [hp]; exact pcne rfl)) (fun u hst _ => ?_)
+  rcases hst with ⟨_, h1⟩ | ⟨h1, _⟩ | h1
+  · rw [hd] at h1; cases h1
+  · rcases h1 with h1 | h1 <;> (rw [hp] at h1; cases h1)
+  · exact Or.inr (Or.inr h1)
+
+/-- the status of the trial whose turn it is has been read: in progress -/
+theorem FInv.statusIP {s : LState} (h : FInv s) (hp : s.pc = .finStatus) :
+    FInv { s with bst := aset s.t .inProgress s.bst, pc := .finStop } := by
+  refine h.keep (by rw [hp]; rfl) rfl (by rw [hp]; exact pcne rfl) ⟨pcne rfl, pcne rfl⟩ rfl
+    (h.noFinErr (by rw [hp]; exact pcne rfl)) (fun u hst _ => ?_)
+  by_cases hu : u = s.t
+  · exact Or.inr (Or.inl ⟨Or.inr rfl, hu⟩)
+  · rcases hst with ⟨_, h1⟩ | ⟨_, h1⟩ | h1
+    · exact Or.inl ⟨rfl, h1⟩
+    · exact absurd h1 hu
+    · refine Or.inr (Or.inr ?_)
+      show alookup u (aset s.t St.inProgress s.bst) ≠ some St.inProgress
+      rw [alookup_aset_ne _ _ _ _ hu]; exact h1
+
+/-- the status of the trial whose turn it is has been read: not in progress -/
+theorem FInv.statusOther {s : LState} (h : FInv s) (hp : s.pc = .finStatus) (st : St) (hst0 : st ≠ .inProgress) :
+    FInv { s with bst := aset s.t st s.bst, pc := .finStatusNext } := by
+  refine h.keep (by rw [hp]; rfl) rfl (by rw [hp]; exact pcne rfl) ⟨pcne rfl, pcne rfl⟩ rfl
+    (h.noFinErr (by rw [hp]; exact pcne rfl)) (fun u hst _ => ?_)
+  by_cases hu : u = s.t
+  · refine Or.inr (Or.inr ?_)
+    show alookup u (aset s.t st s.bst) ≠ some St.inProgress
+    rw [hu, alookup_aset_self]; intro hc; injection hc with hc; exact hst0 hc
+  · rcases hst with ⟨_, h1⟩ | ⟨_, h1⟩ | h1
+    · exact Or.inl ⟨rfl, h1⟩
+    · exact absurd h1 hu
+    · refine Or.inr (Or.inr ?_)
+      show alookup u (aset s.t st s.bst) ≠ some St.inProgress
+      rw [alookup_aset_ne _ _ _ _ hu]; exact h1
+
+/-- `stop_trial` returned -/
+theorem FInv.stoppedOne {s : LState} (h : FInv s) (hp : s.pc = .finStop) (pc' : Pc)
+    (hpc : pc' = .finStopDel ∨ pc' = .finStatusNext) :
+    FInv { s with bst := aset s.t .stopped s.bst, pc := pc' } := by
+  have hsl : stopLoopPc pc' = true := by rcases hpc with h1 | h1 <;> subst h1 <;> rfl
+  have hf' : finPc pc' = true := by rcases hpc with h1 | h1 <;> subst h1 <;> rfl
+  have hn : pc' ≠ .finTuningEnd ∧ pc' ≠ .finAll := by rcases hpc with h1 | h1 <;> subst h1 <;> exact ⟨pcne rfl, pcne rfl⟩
+  refine h.keep (by rw [hp]; rfl) hf' (by rw [hp]; exact pcne rfl) hn rfl
+    (h.noFinErr (by rw [hp]; exact pcne rfl)) (fun u hst _ => ?_)
+  by_cases hu : u = s.t
+  · refine Or.inr (Or.inr ?_)
+    show alookup u (aset s.t St.stopped s.bst) ≠ some St.inProgress
+    rw [hu, alookup_aset_self]; exact fun hc => nomatch hc
+  · rcases hst with ⟨_, h1⟩ | ⟨_, h1⟩ | h1
+    · exact Or.inl ⟨hsl, h1⟩
+    · exact absurd h1 hu
+    · refine Or.inr (Or.inr ?_)
+      show alookup u (aset s.t St.stopped s.bst) ≠ some St.inProgress
+      rw [alookup_aset_ne _ _ _ _ hu]; exact h1
+
+theorem FInv.delDone {s : LState} (h : FInv s) (hp : s.pc = .finStopDel) (dl : List Nat) :
+    FInv { s with pc := .finStatusNext, deleted := dl } := by
+  refine h.keep (by rw [hp]; rfl) rfl (by rw [hp]; exact pcne rfl) ⟨pcne rfl, pcne rfl⟩ rfl
+    (h.noFinErr (by rw [hp]; exact pcne rfl)) (fun u hst _ => ?_)
+  rcases hst with ⟨_, h1⟩ | ⟨h1, _⟩ | h1
+  · exact Or.inl ⟨rfl, h1⟩
+  · rcases h1 with h1 | h1 <;> (rw [hp] at h1; cases h1)
+  · exact Or.inr (Or.inr h1)
+
+theorem FInv.keyErr {s : LState} (h : FInv s) (_hE : ErrInv s) (hp : finPc s.pc = false) (l : List Res) :
+    FInv (raiseFin { s with rest := l } .keyError) :=
+  h.empty (Or.inl hp) rfl (fun hc => nomatch hc)
+
 theorem FInv_next (s : LState) (a : Ans) (h : FInv s) (hE : ErrInv s) : FInv (next s a) := by
   unfold next
   split
@@ -199,8 +307,245 @@ theorem FInv_next (s : LState) (a : Ans) (h : FInv s) (hE : ErrInv s) : FInv (ne
   all_goals first
     | exact h
     | exact FInv.raised s
-    | exact h.empty (Or.inl (by rw [hpc]; rfl)) rfl (by rw [show (_ : LState).err = s.err from rfl, hE (by rw [hpc]; rfl)]; exact fun hc => nomatch hc)
-    | exact h.empty (Or.inl (by rw [hpc]; rfl)) rfl (fun hc => nomatch hc)
+    | exact h.loopSame hE (by rw [hpc]; rfl) rfl rfl
+    | exact h.loopSame hE (by rw [hpc]; rfl) (addRow_visible _) (addRow_err _)
+    | exact h.loopSame hE (by rw [hpc]; rfl) (scheduled_visible _ _) (scheduled_err _ _)
+    | exact h.loopSame hE (by rw [hpc]; rfl) (secondItem_visible _ _ _ _) (secondItem_err _ _ _ _)
+    | exact h.loopRaise (by rw [hpc]; rfl) _ (by decide)
+    | exact h.loopRaise (by rw [hpc]; rfl) _ (fun hc => nomatch hc)
+    | exact h.keyErr hE (by rw [hpc]; rfl) _
+    | exact h.empty (Or.inr (Or.inl hpc)) rfl (h.noFinErr (by rw [hpc]; exact pcne rfl))
+    | exact h.visibleSet hpc _
+    | exact h.nextStatus hpc _ _ (by assumption)
+    | exact h.loopDone hpc (by assumption)
+    | (rename_i hst; subst hst; exact h.statusIP hpc)
+    | exact h.statusOther hpc _ (by assumption)
+    | exact h.stoppedOne hpc _ (Or.inl rfl)
+    | exact h.stoppedOne hpc _ (Or.inr rfl)
+    | exact h.delDone hpc _
+    | exact h.after (by rw [hpc]; rfl) (by rw [hpc]; rfl) (by rw [hpc]; exact pcne rfl) rfl ⟨pcne rfl, pcne rfl⟩ rfl rfl
+        (h.noFinErr (by rw [hpc]; exact pcne rfl))
+    | exact h.after (by rw [hpc]; rfl) (by rw [hpc]; rfl) (by rw [hpc]; exact pcne rfl) rfl ⟨pcne rfl, pcne rfl⟩ rfl rfl
+        (fun hc => nomatch hc)
+
+theorem FInv_step (s : LState) (a : Ans) (h : FInv s) (hE : ErrInv s) : FInv (step s a) :=
+  step_of_next (P := FInv) (fun _ _ h => ⟨h.vis0, h.stage, h.noFinErr⟩) s a (FInv_next s a h hE)
+
+theorem FInv_init (c : Cfg) : FInv (init c) :=
+  ⟨fun _ => rfl, (fun hc => nomatch hc), (fun _ hc => nomatch hc)⟩
+
+theorem EF_run (c : Cfg) (as : List Ans) : ErrInv (run (init c) as) ∧ FInv (run (init c) as) :=
+  run_inv (Inv := fun s => ErrInv s ∧ FInv s) (fun s a h => ⟨ErrInv_step s a h.1, FInv_step s a h.2 h.1⟩)
+    as (init c) ⟨ErrInv_init c, FInv_init c⟩
+
+
+/-! ### overshoot of `max_num_trials_started` -/
+
+theorem eval_false_started {c : Criterion} {ts : TStatus} {clk : Rat} {kc m : Nat}
+    (h : c.eval ts clk kc = false) (hm : c.maxStarted = some m) : ts.numStarted ≤ m := by
+  unfold Criterion.eval at h
+  simp only [Bool.or_eq_false_iff] at h
+  have h2 := h.1.1.1.1.1.1.2
+  rw [hm] at h2
+  simp only [exceedsNat, decide_eq_false_iff_not, Nat.not_lt] at h2
+  exact h2
+
+/-- control points of the `for` loop of `_schedule_new_tasks` -/
+def schedLoopPc : Pc → Bool
+  | .suggestNext | .suggest | .startCmd | .copyCmd | .addS | .startCb | .resumeCmd | .resumeCb => true
+  | _ => false
+
+/-- control points at which a false `stop_condition_reached` still bounds the number of trials -/
+def beforeSchedPc : Pc → Bool
+  | .loopHead | .schedNew | .busy => true
+  | p => iterPc p
+
+structure OInv (m : Nat) (s : LState) : Prop where
+  o1 : s.status.numStarted ≤ m + s.cfg.nWorkers
+  o2 : s.stopReached = false → beforeSchedPc s.pc = true → s.status.numStarted ≤ m
+  o3 : schedLoopPc s.pc = true → s.status.numStarted + s.k ≤ m + s.cfg.nWorkers
+
+theorem OInv.move {m : Nat} {s s' : LState} (h : OInv m s) (hst : s'.status.numStarted = s.status.numStarted)
+    (hc : s'.cfg = s.cfg) (hsr : s'.stopReached = s.stopReached) (hk : s'.k = s.k)
+    (h2 : beforeSchedPc s'.pc = true → beforeSchedPc s.pc = true)
+    (h3 : schedLoopPc s'.pc = true → schedLoopPc s.pc = true) : OInv m s' :=
+  ⟨by rw [hst, hc]; exact h.o1, fun hs hp => by rw [hst]; exact h.o2 (by rw [← hsr]; exact hs) (h2 hp),
+   fun hp => by rw [hst, hk, hc]; exact h.o3 (h3 hp)⟩
+
+theorem OInv.out {m : Nat} {s s' : LState} (h : OInv m s) (hst : s'.status.numStarted = s.status.numStarted)
+    (hc : s'.cfg = s.cfg) (h2 : beforeSchedPc s'.pc = false) (h3 : schedLoopPc s'.pc = false) : OInv m s' :=
+  ⟨by rw [hst, hc]; exact h.o1, (fun _ hp => by rw [h2] at hp; cases hp), (fun hp => by rw [h3] at hp; cases hp)⟩
+
+/-- `_stop_condition()` has been evaluated -/
+theorem OInv.evaluated {m : Nat} {s : LState} (h : OInv m s) (hm : s.cfg.crit.maxStarted = some m) (clk : Rat) :
+    OInv m { s with stopReached := stopCond s clk, pc := .loopHead } := by
+  refine ⟨h.o1, fun hs _ => ?_, (fun hp => nomatch hp)⟩
+  have hs' : stopCond s clk = false := hs
+  unfold stopCond at hs'
+  simp only [Bool.or_eq_false_iff] at hs'
+  exact eval_false_started hs'.1 hm
+
+
+theorem afterUpdate_numStarted {s : LState} (hS : SInv s) (hp : s.pc = .afterUpd) :
+    (afterUpdate s).status.numStarted = s.status.numStarted := by
+  have hu : updPc s.pc = true := by rw [hp]; rfl
+  have hds := (hS.doneOK hu).2
+  have hk' : keys (aupdate s.sd s.done) = keys s.sd := keys_aupdate_of_subset _ _ hds
+  have hlast : (afterUpdate s).status.last = aupdate s.status.last (aupdate s.sd s.done) := update_last _ _ _
+  unfold TStatus.numStarted
+  rw [hlast]
+  apply length_aupdate_of_subset
+  intro k hk
+  rw [hk'] at hk
+  obtain ⟨kv, hkv, hkk⟩ := List.mem_map.mp hk
+  rw [← hkk]
+  exact hS.runLast _ (hS.sdRun hu kv hkv).1
+
+theorem OInv.afterUpdate {m : Nat} {s : LState} (h : OInv m s) (hS : SInv s) (hp : s.pc = .afterUpd) :
+    OInv m (afterUpdate s) := by
+  have hn := afterUpdate_numStarted hS hp
+  rcases afterUpdate_pc s with hh | hh | hh
+  · exact h.out hn rfl (by rw [hh]; rfl) (by rw [hh]; rfl)
+  · exact h.out hn rfl (by rw [hh]; rfl) (by rw [hh]; rfl)
+  · exact h.move hn rfl rfl rfl (fun _ => by rw [hp]; rfl) (fun hc => by rw [hh] at hc; cases hc)
+
+theorem OInv.enter {m : Nat} {s s' : LState} (h : OInv m s) (hJ : JInv s) (hp : s.pc = .schedNew ∨ s.pc = .busy)
+    (hst : s'.status = s.status) (hc : s'.cfg = s.cfg) (hp' : s'.pc = .suggestNext)
+    (hk : s'.k ≤ s.cfg.nWorkers) : OInv m s' := by
+  have hsr : s.stopReached = false := hJ.j2 (by rcases hp with hp | hp <;> rw [hp] <;> rfl)
+  have hN := h.o2 hsr (by rcases hp with hp | hp <;> rw [hp] <;> rfl)
+  refine ⟨by rw [hst, hc]; exact h.o1, (fun _ hp2 => by rw [hp'] at hp2; cases hp2), fun _ => ?_⟩
+  rw [hst, hc]; omega
+
+theorem scheduled_numStarted_le (s : LState) (t : Nat) :
+    (scheduled s t).status.numStarted ≤ s.status.numStarted + 1 := by
+  have hlast : (scheduled s t).status.last = aset t .inProgress s.status.last := by
+    unfold scheduled addRunning
+    split <;> exact update_last _ _ _
+  unfold TStatus.numStarted
+  rw [hlast, length_aset]
+  split <;> omega
+
+theorem scheduled_k (s : LState) (t : Nat) : (scheduled s t).k = s.k - 1 := by
+  unfold scheduled addRunning; split <;> rfl
+
+theorem OInv.scheduled {m : Nat} {s : LState} (h : OInv m s) (hp : schedLoopPc s.pc = true) (hk : 1 ≤ s.k) (t : Nat) :
+    OInv m (scheduled s t) := by
+  have h3 := h.o3 hp
+  have hle := scheduled_numStarted_le s t
+  refine ⟨?_, (fun _ hc => nomatch hc), fun _ => ?_⟩
+  · rw [scheduled_cfg]; omega
+  · rw [scheduled_cfg, scheduled_k]; omega
+
+theorem secondItem_status (s : LState) (t : Nat) (st : St) (rest : List (Nat × St)) :
+    (secondItem s t st rest).status = s.status := by
+  unfold secondItem; repeat' split
+  all_goals rfl
+theorem secondItem_sr (s : LState) (t : Nat) (st : St) (rest : List (Nat × St)) :
+    (secondItem s t st rest).stopReached = s.stopReached := by
+  unfold secondItem; repeat' split
+  all_goals rfl
+theorem secondItem_k (s : LState) (t : Nat) (st : St) (rest : List (Nat × St)) :
+    (secondItem s t st rest).k = s.k := by
+  unfold secondItem; repeat' split
+  all_goals rfl
+theorem secondItem_iter (s : LState) (t : Nat) (st : St) (rest : List (Nat × St)) (hp : s.pc = .second) :
+    iterPc (secondItem s t st rest).pc = true := by
+  rcases secondItem_pc s t st rest with h | h
+  · revert h; cases (secondItem s t st rest).pc <;> simp [flow, succs, iterPc]
+  · rw [h, hp]; rfl
+theorem addRow_status (s : LState) : (addRow s).status = s.status := by unfold addRow; split <;> rfl
+theorem addRow_k (s : LState) : (addRow s).k = s.k := by unfold addRow; split <;> rfl
+
+theorem OInv.secondItem {m : Nat} {s : LState} (h : OInv m s) (hp : s.pc = .second) (t : Nat) (st : St)
+    (rest : List (Nat × St)) : OInv m (secondItem s t st rest) := by
+  have hit := secondItem_iter s t st rest hp
+  refine h.move (by rw [secondItem_status]) (secondItem_cfg _ _ _ _) (secondItem_sr _ _ _ _) (secondItem_k _ _ _ _)
+    (fun _ => by rw [hp]; rfl) (fun hc => ?_)
+  revert hit hc; cases (Tuner.secondItem s t st rest).pc <;> simp [iterPc, schedLoopPc]
+
+theorem OInv_next (m : Nat) (s : LState) (a : Ans) (h : OInv m s) (hm : s.cfg.crit.maxStarted = some m)
+    (hS : SInv s) (hJ : JInv s) (hBu : BudgetInv s) : OInv m (next s a) := by
+  unfold next
+  split
+  all_goals (rename_i hpc)
+  all_goals (try simp only [])
+  all_goals (repeat' split)
+  all_goals first
+    | exact h
+    | exact h.evaluated hm _
+    | exact h.afterUpdate hS hpc
+    | exact h.secondItem hpc _ _ _
+    | exact h.enter hJ (Or.inl hpc) rfl rfl rfl (Nat.sub_le _ _)
+    | exact h.enter hJ (Or.inr hpc) rfl rfl rfl (Nat.sub_le _ _)
+    | exact h.scheduled (by rw [hpc]; rfl) ((hBu.2 (by rw [hpc]; rfl)).1 (by rw [hpc]; exact pcne rfl)) _
+    | exact h.move rfl rfl rfl rfl (fun _ => by rw [hpc]; rfl) (fun hc => by cases hc)
+    | exact h.move rfl rfl rfl rfl (fun hc => by cases hc) (fun _ => by rw [hpc]; rfl)
+    | exact h.move (by rw [addRow_status]) (addRow_cfg _) (addRow_sr _) (addRow_k _) (fun _ => by rw [hpc]; rfl) (fun hc => by cases hc)
+    | exact h.move rfl rfl rfl rfl (fun _ => by rw [hpc]; rfl) (fun hc => by rw [show ({ s with rest := _ } : LState).pc = s.pc from rfl, hpc] at hc; cases hc)
+    | exact h.out rfl rfl rfl rfl
+    | exact h.out (by show (TStatus.markStopped _).last.length = _; simp [TStatus.markStopped, TStatus.numStarted]) rfl rfl rfl
+
+theorem OInv_step (m : Nat) (s : LState) (a : Ans) (h : OInv m s) (hm : s.cfg.crit.maxStarted = some m)
+    (hS : SInv s) (hJ : JInv s) (hBu : BudgetInv s) : OInv m (step s a) :=
+  step_of_next (P := OInv m) (fun _ _ h => ⟨h.o1, h.o2, h.o3⟩) s a (OInv_next m s a h hm hS hJ hBu)
+
+theorem OInv_init (m : Nat) (c : Cfg) : OInv m (init c) :=
+  ⟨by simp [init, TStatus.numStarted], (fun _ hc => nomatch hc), (fun hc => nomatch hc)⟩
+
+/-- the number of trials the loop has recorded never exceeds `max_num_trials_started + n_workers`
+(under contract B) -/
+theorem overshoot_run (c : Cfg) (m : Nat) (hm : c.crit.maxStarted = some m) (as : List Ans)
+    (hB : Along BOk (init c) as) : OInv m (run (init c) as) := by
+  have key : ∀ (as : List Ans) (s : LState), (s.cfg = c ∧ SInv s ∧ JInv s ∧ BudgetInv s ∧ OInv m s) → Along BOk s as →
+      (run s as).cfg = c ∧ SInv (run s as) ∧ JInv (run s as) ∧ BudgetInv (run s as) ∧ OInv m (run s as) :=
+    run_inv_along (Inv := fun s => s.cfg = c ∧ SInv s ∧ JInv s ∧ BudgetInv s ∧ OInv m s) (P := BOk)
+      (fun s a h hp => ⟨by rw [step_cfg]; exact h.1, SInv_step s a h.2.1 hp, JInv_step s a h.2.2.1,
+        budget_step s a h.2.2.2.1, OInv_step m s a h.2.2.2.2 (by rw [h.1]; exact hm) h.2.1 h.2.2.1 h.2.2.2.1⟩)
+  exact (key as (init c) ⟨rfl, SInv_init c, JInv_init c, budget_init c, OInv_init m c⟩ hB).2.2.2.2
+
+
+/-! ### how the loop is left -/
+
+theorem secondItem_notfin (s : LState) (t : Nat) (st : St) (rest : List (Nat × St)) (hp : s.pc = .second) :
+    finPc (secondItem s t st rest).pc = false := by
+  have := secondItem_iter s t st rest hp
+  revert this; cases (secondItem s t st rest).pc <;> simp [iterPc, finPc]
+
+theorem afterUpdate_into_fin (s : LState) (hf' : finPc (afterUpdate s).pc = true) :
+    s.exhausted = true ∨ (s.cfg.wait = true ∧ s.stopReached = true) := by
+  unfold afterUpdate at hf'
+  simp only [] at hf'
+  split at hf'
+  · rename_i hc
+    simp only [Bool.or_eq_true, Bool.and_eq_true] at hc
+    exact hc
+  · cases hf'
+
+theorem next_into_fin (s : LState) (a : Ans) (hf : finPc s.pc = false) (hf' : finPc (next s a).pc = true) :
+    (s.pc = .loopHead ∧ s.stopReached = true) ∨
+    (s.pc = .afterUpd ∧ (s.exhausted = true ∨ (s.cfg.wait = true ∧ s.stopReached = true))) ∨
+    (next s a).err.isSome = true := by
+  revert hf'
+  unfold next
+  split
+  all_goals (rename_i hpc)
+  all_goals (try simp only [])
+  all_goals (repeat' split)
+  all_goals (intro hf')
+  all_goals first
+    | exact Or.inr (Or.inr rfl)
+    | exact Or.inr (Or.inl ⟨hpc, afterUpdate_into_fin s hf'⟩)
+    | (refine Or.inl ⟨hpc, ?_⟩
+       rename_i hc
+       cases hsr : s.stopReached
+       · rw [hsr] at hc; simp at hc
+       · rfl)
+    | (exfalso; rw [show finPc _ = false from rfl] at hf'; cases hf'; done)
+    | (exfalso; rw [hpc] at hf; cases hf; done)
+    | (exfalso; rw [addRow_pc] at hf'; rw [show finPc _ = false from rfl] at hf'; cases hf'; done)
+    | (exfalso; rw [secondItem_notfin s _ _ _ hpc] at hf'; cases hf'; done)
+    | (exfalso; rw [show finPc _ = finPc s.pc from rfl, hf] at hf'; cases hf'; done)
     | skip
   all_goals (trace_state; sorry)
 
